@@ -25,6 +25,24 @@ type simCase struct {
 	tags map[string]bool
 	// holdLeft: the kind's cache does not move for that many further reconciles (a stalled watch)
 	holdLeft [nKinds]int
+	// maxNow: the maxTrialCount the user last applied, per experiment (budget edits only ever raise it)
+	maxNow map[string]int32
+	// goalNext: the next value the settling phase reports for this experiment's objective reaches the goal
+	goalNext string
+}
+
+func (c *simCase) curMax(g expCfg) int32 {
+	if v, ok := c.maxNow[g.ns+"/"+g.name]; ok {
+		return v
+	}
+	return *g.max
+}
+
+func (c *simCase) setMax(g expCfg, n int32) {
+	if c.maxNow == nil {
+		c.maxNow = map[string]int32{}
+	}
+	c.maxNow[g.ns+"/"+g.name] = n
 }
 
 func (c *simCase) emit(op, out string) {
@@ -211,9 +229,33 @@ func (c *simCase) outcome(g expCfg, t trialsv1beta1.Trial) {
 			c.emit(fmt.Sprintf("SIM earlystop %s %s", t.Namespace, t.Name), "ok="+b01(r))
 			c.jobOp(t.Namespace, t.Name, true)
 			c.recTrial(t.Namespace, t.Name, false, 0)
+			if c.rng.Intn(2) == 0 {
+				// while the early-stopped Trial holds an observation without an objective value, the other controllers run:
+				// the Trial is not counted and must not be reported to the algorithm
+				c.recExp(g, false, 0)
+				c.recSug(g, false, 0)
+				c.recExp(g, false, 0)
+				c.recSug(g, false, 0)
+				c.tags["suggestion-synced-while-early-stopped-trial-lacks-objective"] = true
+			}
 			c.metricOp(t.Name, pick(c.rng, simValues))
 			c.recTrial(t.Namespace, t.Name, false, 0)
 			c.tags["outcome-early-stopped-unavailable-then-late-value"] = true
+		} else if t.IsRunning() && c.rng.Intn(4) == 0 {
+			// early-stopped, only a metric nobody asked for (or the marker) was stored, and the job then fails: the Trial keeps
+			// an observation without an objective value and is not MetricsUnavailable; it does not count and is not reported
+			if c.rng.Intn(2) == 0 {
+				c.noiseOp(t.Name, pick(c.rng, simValues))
+			} else {
+				c.metricOp(t.Name, "unavailable")
+			}
+			r := c.s.earlyStop(t.Namespace, t.Name)
+			c.emit(fmt.Sprintf("SIM earlystop %s %s", t.Namespace, t.Name), "ok="+b01(r))
+			c.jobOp(t.Namespace, t.Name, false)
+			c.recTrial(t.Namespace, t.Name, false, 0)
+			c.recExp(g, false, 0)
+			c.recSug(g, false, 0)
+			c.tags["outcome-early-stopped-job-failed-without-objective"] = true
 		} else if t.IsRunning() {
 			if c.rng.Intn(3) != 0 {
 				c.metricOp(t.Name, pick(c.rng, simValues))
@@ -280,6 +322,10 @@ func (c *simCase) finishJobs(g expCfg) {
 				if c.rng.Intn(8) == 0 {
 					c.metricOp(t.Name, "unavailable")
 					c.tags["settled-with-unavailable-objective"] = true
+				} else if c.goalNext != "" {
+					c.metricOp(t.Name, c.goalNext)
+					c.goalNext = ""
+					c.tags["goal-reached-after-restart-with-budget-to-spare"] = true
 				} else {
 					c.metricOp(t.Name, pick(c.rng, simValues))
 				}
@@ -397,7 +443,16 @@ func runSim(rng *rand.Rand, tier string, k int) Case {
 		case op <= 2:
 			was := c.expCompleted(g)
 			c.recExp(g, faulty, lagP)
-			if lagP != 0 && !was && c.expCompleted(g) && rng.Intn(2) == 0 {
+			if !was && c.expCompleted(g) && g.max != nil && rng.Intn(3) == 0 {
+				// the user raises the budget right after the verdict, before the controller has cleaned up: the next reconcile
+				// finds clean-up and restart due at once and works on one (by then outdated) copy of the Suggestion
+				n := c.curMax(g) + int32(1+rng.Intn(2))
+				r := c.s.editMax(g.ns, g.name, n)
+				c.setMax(g, n)
+				c.emit(fmt.Sprintf("SIM editMax %s %s %d", g.ns, g.name, n), "ok="+b01(r))
+				c.recExp(g, false, lagP)
+				c.tags["budget-raised-right-after-the-verdict"] = true
+			} else if lagP != 0 && !was && c.expCompleted(g) && rng.Intn(2) == 0 {
 				// the Experiment cache keeps serving the copy from before the verdict for a while
 				c.holdLeft[kExp] = 3 + rng.Intn(5)
 				c.tags["experiment-cache-held-at-pre-verdict-copy"] = true
@@ -407,8 +462,8 @@ func runSim(rng *rand.Rand, tier string, k int) Case {
 		case op == 5:
 			if g.max != nil && rng.Intn(4) == 0 {
 				// in the middle of the run the user re-applies the Experiment with the same budget and a changed label
-				r := c.s.editMax(g.ns, g.name, *g.max)
-				c.emit(fmt.Sprintf("SIM editMax %s %s %d", g.ns, g.name, *g.max), "ok="+b01(r))
+				r := c.s.editMax(g.ns, g.name, c.curMax(g))
+				c.emit(fmt.Sprintf("SIM editMax %s %s %d", g.ns, g.name, c.curMax(g)), "ok="+b01(r))
 				c.tags["experiment-relabelled-mid-run"] = true
 			} else {
 				c.deployReady(g)
@@ -474,11 +529,12 @@ func runSim(rng *rand.Rand, tier string, k int) Case {
 	if rng.Intn(2) == 0 {
 		g := cfgs[0]
 		if g.max != nil {
-			n := *g.max
+			n := c.curMax(g)
 			raises := 1 + rng.Intn(2)
 			for ri := 0; ri < raises; ri++ {
 				n += int32(1 + rng.Intn(2))
 				r := c.s.editMax(g.ns, g.name, n)
+				c.setMax(g, n)
 				c.emit(fmt.Sprintf("SIM editMax %s %s %d", g.ns, g.name, n), "ok="+b01(r))
 				c.tags["budget-raised-after-completion"] = true
 				if ri == 1 {
@@ -501,7 +557,15 @@ func runSim(rng *rand.Rand, tier string, k int) Case {
 						}
 					}
 				}
+				if g.goal != nil {
+					// the first Trial that finishes after the restart reaches the goal: a second verdict while budget is left
+					c.goalNext = "0.9"
+					if g.objType == commonv1beta1.ObjectiveTypeMinimize {
+						c.goalNext = "0.1"
+					}
+				}
 				c.settle(g, 40)
+				c.goalNext = ""
 				c.emit(fmt.Sprintf("SIM quiesce-begin %s %s", g.ns, g.name), "ok=1")
 				c.round(g)
 				c.round(g)
